@@ -2,6 +2,7 @@ pub mod checks;
 pub mod cli;
 pub mod climodel;
 pub mod corpus;
+pub mod fuzzglue;
 pub mod model;
 pub mod oracle;
 pub mod rd_json;
